@@ -48,6 +48,14 @@ CHAR_METHODS = {
     "is_ascii_graphic": lambda c: 0x21 <= c <= 0x7E,
     # Unicode general category Cc: C0, DEL and the C1 controls U+0080..U+009F
     "is_control": lambda c: c < 0x20 or 0x7F <= c <= 0x9F,
+    # Unicode-aware predicates of `char`, through Python's tables of the same properties (General
+    # Category N* / Alphabetic / White_Space): used only to show that a predicate is NOT the ASCII
+    # class the grammar wants, on the non-ASCII representatives of CHAR_DOMAIN
+    "is_numeric": lambda c: chr(c).isnumeric(),
+    "is_alphabetic": lambda c: chr(c).isalpha(),
+    "is_alphanumeric": lambda c: chr(c).isalnum(),
+    "is_lowercase": lambda c: chr(c).islower(),
+    "is_uppercase": lambda c: chr(c).isupper(),
 }
 
 
@@ -401,7 +409,7 @@ class Evaluator:
 
 # the char partition: every ASCII code point + representatives of the non-ASCII classes any
 # predicate in the repository distinguishes
-CHAR_DOMAIN = [Char(c) for c in range(128)] + [Char(0x85), Char(0xA0), Char(0xE9), Char(0x2028), Char(0x2029), Char(0x3000), Char(0xFEFF), Char(0xFFFD), Char(0x1F680)]
+CHAR_DOMAIN = [Char(c) for c in range(128)] + [Char(0x85), Char(0xA0), Char(0xB2), Char(0xE9), Char(0x661), Char(0x2028), Char(0x2029), Char(0x3000), Char(0xFEFF), Char(0xFF11), Char(0xFFFD), Char(0x1F680)]
 
 
 def char_set(ev, fn_name, domain=None):
